@@ -199,12 +199,16 @@ def classify(ctx: Ctx, h: ba.Hit, root, uni, tfuncs, exceptions, per_row, reduce
     return "bad", h.why, fn, text, where
 
 
-def run(ctx: Ctx):
+def batch_rows(ctx: Ctx, rid="C04.a", envs=None, sink_ok=None, meths=("_reset", "_step", "get_action_mask", "_get_reward", "check_solution_validity")):
+    """C04.a engine; other properties call it for the sinks they rely on being computed row by row (`sink_ok(env, method, sink)`
+    selects the sinks, `envs` the environments)."""
     from ..tables.batch_exceptions import PER_ROW_FUNCTIONS
     n_hits = 0
     tfuncs = tuple_funcs(ctx.repo)
     used_exceptions = set()
     for cname, path in T.ALL_ENVS.items():
+        if envs is not None and cname not in envs:
+            continue
         env = EnvA(ctx.repo, path, cname)
         ranks = ba.RankFacts()
         rs = env.slot("_reset")
@@ -239,7 +243,7 @@ def run(ctx: Ctx):
                     if rk is not None:
                         ranks.cell_rank[k] = rk
         uni = uniform_keys(env)
-        for meth in ("_reset", "_step", "get_action_mask", "_get_reward", "check_solution_validity"):
+        for meth in meths:
             if meth in ("get_action_mask", "check_solution_validity") and not env.own(meth):
                 continue
             sl = env.slot(meth)
@@ -263,6 +267,10 @@ def run(ctx: Ctx):
                 for i, e in enumerate(sl.events("assert")):
                     for j, part in enumerate(strip_top_all(e.data)):
                         sinks.append((f"assert@{getattr(e.node, 'lineno', i)}", part))
+            if sink_ok is not None:
+                sinks = [(k, v) for k, v in sinks if sink_ok(cname, meth, k)]
+                if not sinks:
+                    continue
             ranks.learn_loop_invariants()
             per_hit = {}
             for sink, v in sinks:
@@ -280,13 +288,19 @@ def run(ctx: Ctx):
                         used_exceptions.add((fn, h.kind, text))
                     continue
                 bad += 1
-                ctx.ob("C04.a", f"{cname}.{meth}:{fn}:{h.kind}", False, where or sl.where,
+                ctx.ob(rid, f"{cname}.{meth}:{fn}:{h.kind}", False, where or sl.where,
                        f"{h.kind} `{text}` in {fn}: {why}. It flows into {sorted(set(snks))[:6]} of {cname}.{meth}: "
                        f"what is computed for one instance depends on the other rows of the batch",
                        construct=f"{fn}:{h.kind}:{alpha_key(text)}")
             if not bad:
-                ctx.ob("C04.a", f"{cname}.{meth}", True, sl.where, f"{len(sinks)} sinks, {len(per_hit)} batch-global ops, all justified")
-        ctx.sample({"env": cname, "row_uniform_keys": sorted(uni), "known_ranks": dict(sorted(ranks.cell_rank.items()))})
+                ctx.ob(rid, f"{cname}.{meth}", True, sl.where, f"{len(sinks)} sinks, {len(per_hit)} batch-global ops, all justified")
+        if rid == "C04.a":
+            ctx.sample({"env": cname, "row_uniform_keys": sorted(uni), "known_ranks": dict(sorted(ranks.cell_rank.items()))})
+    return n_hits, used_exceptions
+
+
+def run(ctx: Ctx):
+    n_hits, used_exceptions = batch_rows(ctx)
     ctx.extra["batch_global_ops_seen"] = n_hits
     ctx.extra["exceptions_used"] = sorted(map(list, used_exceptions))
     # C04.c: a finished instance keeps being stepped (with the padding action) while its batch-mates run on; a reward read from
@@ -299,6 +313,7 @@ def run(ctx: Ctx):
     guarded_callees(ctx)
     ffsp_tables_per_reset(ctx)
     alone_steppable(ctx)
+    rewards_read_frozen_state(ctx)
     positive_control(ctx)
 
 
@@ -356,6 +371,37 @@ def guarded_callees(ctx: Ctx):
                 f"the unmasked per-row candidate `{vg.show(cand, 3)}` also flows into {leaks}: rows that do not advance their clock are changed "
                 f"whenever a batch-mate triggers the transition"),
                construct="FJSPEnv._transit_to_next_time:candidate-leak:" + ",".join(leaks))
+
+
+def rewards_read_frozen_state(ctx: Ctx):
+    """C04.f / C04.g an instance that finished early keeps being stepped with feasible padding actions; its reward must be read
+    from state those steps leave untouched.
+    f) FLP, MCP: `_step` freezes the selection of a finished instance (C08.h) but the padding actions are ordinary feasible,
+       not-yet-chosen items -- a reward rebuilt from the `actions` argument counts them as opened facilities / chosen sets.
+       The value returned by `_get_reward` must not depend on `actions`.
+    g) FFSP: the reward written by `_step` is the makespan of the RECORDED schedule (start + duration over the real jobs); the
+       live counters (`time_idx`, `machine_wait_step`, ...) keep moving during padded wait steps.  Shared with C03 / C07.f."""
+    from . import C03
+    for cname in ("FLPEnv", "MCPEnv"):
+        env = EnvA(ctx.repo, T.ALL_ENVS[cname], cname)
+        sl = env.slot("_get_reward")
+        if sl is None or not isinstance(sl.fr.ret, vg.S):
+            raise AnalysisError(f"{cname}._get_reward not resolved")
+        ctx.fn(sl.fi)
+        uses = any(n.op == "param" and n.args[0] == "actions" for n in vg.walk(sl.fr.ret))
+        ctx.ob("C04.f", f"{cname}._get_reward:reads-the-recorded-selection", not uses, sl.where,
+               "the reward is a function of the state only" if not uses else
+               "the reward is rebuilt from the `actions` argument: the feasible padding actions of an instance that finished before its batch-mates are counted as selected items",
+               construct=f"{sl.fi.qualname}:reward-from-actions")
+    n0 = len(ctx.obligations)
+    C03.incremental(ctx)
+    keep = [o for o in ctx.obligations[n0:] if o.instance.startswith("FFSPEnv")]
+    del ctx.obligations[n0:]
+    if not keep:
+        raise AnalysisError("FFSPEnv: reward obligations of C03.incremental not found")
+    for o in keep:
+        o.rule = "C04.g"
+    ctx.obligations.extend(keep)
 
 
 def positive_control(ctx: Ctx):
